@@ -32,6 +32,55 @@ def child_env():
     return env
 
 
+def run_regression(prop, work, timeout):
+    """Replay regress/<ID>/*.json in up to 16 children. Returns the list of
+    per-file results, or None on harness trouble."""
+    import glob
+
+    files = sorted(glob.glob(os.path.join(VERIF, "regress", prop, "*.json")))
+    if os.environ.get("VERIF_NO_REGRESS"):
+        # sensitivity tooling only: judge the generated search on its own
+        files = []
+    if not files:
+        return []
+    n = max(1, min(16, os.cpu_count() or 1, len(files)))
+    procs = []
+    for k in range(n):
+        out = os.path.join(work, f"regress{k}.json")
+        env = child_env()
+        env["VERIF_SCRATCH"] = os.path.join(work, f"rscratch{k}")
+        os.makedirs(env["VERIF_SCRATCH"], exist_ok=True)
+        log = open(os.path.join(work, f"regress{k}.log"), "w")
+        p = subprocess.Popen(
+            [PY, "-m", "vlib.regress", prop, out] + files[k::n], cwd=VERIF, env=env, stdout=log, stderr=subprocess.STDOUT,
+        )
+        procs.append((k, p, out, log))
+    res = []
+    trouble = []
+    t0 = time.time()
+    for k, p, out, log in procs:
+        try:
+            rc = p.wait(timeout=max(1, timeout - (time.time() - t0)))
+        except subprocess.TimeoutExpired:
+            p.kill()
+            p.wait()
+            trouble.append(f"regression replay {k}: wall-clock watchdog")
+            continue
+        finally:
+            log.close()
+        if rc != 0 or not os.path.exists(out):
+            with open(os.path.join(work, f"regress{k}.log")) as f:
+                trouble.append(f"regression replay {k}: exit {rc}\n{f.read()[-3000:]}")
+            continue
+        with open(out) as f:
+            res.extend(json.load(f))
+    if trouble:
+        for h in trouble[:2]:
+            print("HARNESS-ERROR", h, file=sys.stderr)
+        return None
+    return res
+
+
 def main():
     ap = argparse.ArgumentParser()
     ap.add_argument("prop")
@@ -78,6 +127,44 @@ def main():
     shutil.rmtree(work, ignore_errors=True)
     os.makedirs(work)
     t0 = time.time()
+
+    # stage 0: the saved failing inputs of this property (regress/<ID>/*.json),
+    # replayed without Hypothesis: seconds, independent of VERIF_SEED
+    reg = run_regression(prop, work, min(timeout, 1500))
+    if reg is None:
+        shutil.rmtree(work, ignore_errors=True)
+        return 2
+    bad = [r for r in reg if r["violations"]]
+    if bad:
+        from vlib import harness
+
+        bad.sort(key=lambda r: os.path.getsize(os.path.join(VERIF, r["file"])))
+        with open(os.path.join(VERIF, bad[0]["file"])) as f:
+            spec = json.load(f)["spec"]
+        path = os.path.join("replays", f"{prop}-{harness.spec_hash(spec)}.json")
+        os.makedirs(os.path.join(OUT, "replays"), exist_ok=True)
+        harness.write_json(
+            os.path.join(OUT, path),
+            {"property": prop, "spec": spec, "violations": bad[0]["violations"], "from": bad[0]["file"], "origin": bad[0]["origin"]},
+        )
+        evidence = {
+            "property_id": prop, "tier": tier, "seed": seed, "level": mod.LEVEL,
+            "coverage": {
+                "evaluations": len(reg), "distinct_nontrivial": sum(r["nontrivial"] for r in reg), "rule": mod.RULE,
+                "samples": [], "class_distribution": {}, "counters": {}, "shards": 0, "known_finding_exclusions": {},
+                "regression_corpus": {"files": len(reg), "failing": [r["file"] for r in bad]},
+            },
+            "assumptions": list(getattr(mod, "ASSUMPTIONS", [])), "wall_s": round(time.time() - t0, 2), "violations": len(bad),
+        }
+        os.makedirs(os.path.join(OUT, "evidence"), exist_ok=True)
+        harness.write_json(os.path.join(OUT, "evidence", f"{prop}.json"), evidence)
+        shutil.rmtree(work, ignore_errors=True)
+        print(f"{prop} tier={tier} seed={seed}: saved input {bad[0]['file']} ({bad[0]['origin']}) fails; {len(bad)} of {len(reg)} saved inputs fail")
+        for v in bad[0]["violations"][:5]:
+            print("  ", v)
+        print(f"VIOLATION property={prop} replay={path}")
+        return 1
+
     procs = []
     try:
         for k in range(nshards):
@@ -168,6 +255,11 @@ def main():
         "counters": dict(sorted(stats.items())),
         "shards": nshards,
         "known_finding_exclusions": known_hits,
+    }
+    coverage["regression_corpus"] = {
+        "files": len(reg),
+        "all_pass": True,
+        "what": "shrunk failing inputs saved from trees with a defect (before each fix: commit of /repo; or a seeded change), replayed first",
     }
     if hasattr(mod, "coverage_extra"):
         coverage.update(mod.coverage_extra(tier, stats))
